@@ -58,7 +58,7 @@ class Report:
         """A violation reproduced on the real code, identified by blame signature sig."""
         opn, _ = load_known()
         if sig in opn and opn[sig][0] == self.prop:
-            self.known_hit.setdefault(sig, (opn[sig][1], opn[sig][2], what))
+            self.known_hit.setdefault(sig, (opn[sig][1], opn[sig][2], what, replay))
         else:
             if not any(v[0] == sig for v in self.violations):
                 self.violations.append((sig, what, replay))
@@ -67,8 +67,10 @@ class Report:
         wall = time.time() - self.t0
         os.makedirs(os.path.join(EVDIR, 'replays'), exist_ok=True)
         lines = []
-        for sig, (kid, text, what) in sorted(self.known_hit.items()):
+        for sig, (kid, text, what, replay) in sorted(self.known_hit.items()):
             lines.append('KNOWN-FINDING: property=%s id=%s sig=%s :: %s' % (self.prop, kid, sig, text))
+            with open(os.path.join(EVDIR, 'replays', '%s.json' % kid), 'w') as f:
+                json.dump({'property': self.prop, 'signature': sig, 'what': what, 'known_finding': kid, 'replay': replay}, f, indent=1)
         for sig, what, replay in self.violations:
             h = hashlib.sha1(sig.encode()).hexdigest()[:10]
             rp = os.path.join(EVDIR, 'replays', '%s-%s.json' % (self.prop, h))
